@@ -288,7 +288,9 @@ func Lock(lock func(), try func() bool, site string) {
 	}
 }
 
-// Unlock releases a mutex and lets lock waiters retry.
+// Unlock releases a mutex, lets lock waiters retry, and is itself a scheduling point: code that
+// follows an unlock (use-after-unlock windows without any other synchronisation inside) must be
+// interleavable with the task that grabs the lock next.
 func Unlock(unlock func()) {
 	unlock()
 	s := getActive()
@@ -297,7 +299,14 @@ func Unlock(unlock func()) {
 	}
 	s.mu.Lock()
 	s.unlockEpoch++
+	stopped := s.stopped
 	s.mu.Unlock()
+	if stopped {
+		return // never Goexit from a (possibly deferred) unlock of a finished run
+	}
+	if t := s.curTask(); t != nil {
+		s.park(t, tsParked, "unlock")
+	}
 }
 
 // Run drives the tasks until every harness task is done, the fake-time horizon passes or maxSteps
